@@ -34,6 +34,67 @@ def run(ctx):
             ctx.ob("C32.1", "member only in state_1 is copied unchanged", ok,
                    "absent row inserts %s" % [[a.expr()[-60:] for a in e[2]] for e in ins], site=b.loc(loop.bb),
                    key="C32.1:absent-row")
+    # C32.0 — the frame around the step: the laws are decided on the per-member step, which only transfers to
+    # merge() if every call runs the loop to exhaustion over state_1's members, on a result that starts as a
+    # copy of state_2 and is what merge returns.
+    from mir import sem_calls, origins
+    from facts import Place
+    # An early return is the pointwise merge only in the identity case: one side has no members and the OTHER
+    # side is returned.  Every assignment to the return place made on a path that bypasses the loop must be of
+    # that form (dominated by the `true` edge of is_empty() on one state's members, value from the other state).
+    from mir import branches_on, edge_dominates, deep_locals
+    bypass = b.reachable(0, avoid=[loop.bb])
+    early = bypass & set(b.exits())
+    bad_early = []
+    if early:
+        tests = []
+        for c in sem_calls(b):
+            if c.name.rsplit("::", 1)[-1] == "is_empty" and c.args:
+                o = origins(b, c.args[0])
+                ps = {l for l, f in o.params if "members" in [str(x) for x in f]}
+                if len(ps) == 1:
+                    tests.append((c, ps.pop()))
+        for bb, k, pl, rv, st in b.assigns():
+            if bb not in bypass or pl.local != 0 or pl.proj:
+                continue
+            src = origins(b, rv["op"]) if rv.get("k") == "use" else None
+            sp = {l for l, f in src.params} if src is not None else set()
+            ok = False
+            for c, q in tests:
+                if sp == {3 - q} and any(br.edge("true") and edge_dominates(b, br.edge("true"), bb)
+                                          for br in branches_on(b, c.result, c.done_bb)):
+                    ok = True
+            if not ok:
+                bad_early.append(b.loc(bb))
+        if not bad_early and not any(pl.local == 0 and bb in bypass for bb, k, pl, rv, st in b.assigns()):
+            bad_early.append("return without assignment")
+    ctx.ob("C32.0", "every return of merge passes through the member loop (or is the identity case)", not bad_early,
+           "state::merge has a path to a return that never enters the loop over state_1.members and is not the identity "
+           "case `one state has no members -> return the other` (%s): the result on that path is not the pointwise "
+           "merge, so the table's laws do not transfer" % bad_early,
+           site=b.loc(loop.bb), key="C32.0:loop-dominates-return")
+    ret = origins(b, Place([0, []]))
+    ctx.ob("C32.0", "merge returns the accumulator seeded from state_2", ret.params == {(2, ())} or (bool(early) and not bad_early),
+           "the returned value derives from parameters %s, expected a copy of state_2 only" % sorted(ret.params),
+           site=b.loc(loop.bb), key="C32.0:result-is-accumulator")
+    into = [c for c in sem_calls(b) if c.name.endswith("IntoIterator::into_iter") or c.name.endswith("::into_iter")]
+    it_ok = False
+    it_from = []
+    for c in into:
+        o = origins(b, c.term["args"][0])
+        it_from.append(sorted(o.params))
+        if o.params and all(l == 1 and "members" in [str(x) for x in f] for l, f in o.params):
+            it_ok = True
+    ctx.ob("C32.0", "the loop iterates every member of state_1", it_ok and len(into) == 1,
+           "the for-loop's iterator derives from %s, expected state_1.members" % it_from,
+           site=b.loc(loop.bb), key="C32.0:iterates-state_1")
+    for c in sem_calls(b):
+        if c.name.endswith("HashMap::get_mut") or c.name.endswith("HashMap::insert"):
+            o = origins(b, c.term["args"][0])
+            ctx.ob("C32.0", "the step reads and writes the accumulator", bool(o.params) and all(l == 2 for l, f in o.params)
+                   and bool(o.locals & ret.locals),
+                   "%s is applied to a map derived from %s, expected the accumulator returned by merge"
+                   % (c.name.split("::")[-1], sorted(o.params)), site=b.loc(c.bb), key="C32.0:acc:%s" % c.name.split("::")[-1])
     M = A.make_M(rows, lt)
     if not ctx.ob("C32.1", "both-present rows found", M is not None, "no row with the member present in both states",
                   site=b.loc(loop.bb), trivial=True):
